@@ -313,6 +313,24 @@ class SymEx:
     def fail(self, label, detail=None):
         return self._prove(False, label, detail=detail)
 
+    def watch_divisions(self, on=True):
+        """From now on every division by a symbolic denominator is a side obligation
+        'denominator != 0' (checked when the division happens, before its result is used)."""
+        self.c.check_div = on
+
+    def finite(self, x, label):
+        """All values finite: in symbolic mode the pending division-by-zero candidates
+        collected since the last call become counterexample candidates for this label."""
+        cands = self.c.div_zero
+        self.c.div_zero = []
+        if not cands:
+            self.c.ex.stats.queries['unsat'] += 0
+            self.claims.append(Claim(label, 'held', 'no division by a possibly-zero term'))
+            return True
+        for m in cands[:3]:
+            self.claims.append(Claim(label, 'cand', 'denominator can be zero', self._model(m)))
+        return False
+
     def same(self, a, b, label):
         """Python-level equality of concrete things (ids, types, ints) on this path."""
         return self._prove(bool(a == b), label, detail='%r != %r' % (a, b))
@@ -465,6 +483,16 @@ class ConEx:
 
     def fail(self, label, detail=None):
         return self._rec(False, label, detail)
+
+    def watch_divisions(self, on=True):
+        pass
+
+    def finite(self, x, label):
+        try:
+            ok = bool(np.all(np.isfinite(np.asarray(x, dtype=complex))))
+        except (TypeError, ValueError):
+            ok = False
+        return self._rec(ok, label, None if ok else 'non-finite value')
 
     def same(self, a, b, label):
         return self._rec(bool(a == b), label, '%r != %r' % (a, b))
